@@ -302,22 +302,34 @@ fn plain_view_b_variant(v: u32) -> Vec<(&'static str, &'static str)> {
 // ------------------------------------------------------------------------------------------------
 pub mod async_r0 {
     use async_trait::async_trait;
-    use savefile_derive::savefile_abi_exportable;
+    use savefile_derive::{savefile_abi_exportable, Savefile};
+    #[derive(Savefile)]
+    pub struct Report {
+        pub a: u32,
+    }
     #[async_trait]
     #[savefile_abi_exportable(version = 0)]
     pub trait ALedger {
+        async fn report(&self) -> Report;
         async fn get(&self, x: u32) -> u32;
         async fn set(&mut self, x: u32, y: String) -> bool;
         fn plain(&self, x: u32) -> u32;
     }
 }
 pub mod async_r1 {
-    // compatible: one more async method
+    // compatible: one more async method, and the OUTPUT of an async method gains a versioned field
     use async_trait::async_trait;
-    use savefile_derive::savefile_abi_exportable;
+    use savefile_derive::{savefile_abi_exportable, Savefile};
+    #[derive(Savefile)]
+    pub struct Report {
+        pub a: u32,
+        #[savefile_versions = "1.."]
+        pub b: u32,
+    }
     #[async_trait]
     #[savefile_abi_exportable(version = 1)]
     pub trait ALedger {
+        async fn report(&self) -> Report;
         async fn get(&self, x: u32) -> u32;
         async fn set(&mut self, x: u32, y: String) -> bool;
         fn plain(&self, x: u32) -> u32;
@@ -325,34 +337,44 @@ pub mod async_r1 {
     }
 }
 pub mod async_b_sync {
+    #[derive(savefile_derive::Savefile)]
+    pub struct Report {
+        pub a: u32,
+    }
     // BREAKING sibling of r0: `get` is no longer async
     use async_trait::async_trait;
     use savefile_derive::savefile_abi_exportable;
     #[async_trait]
     #[savefile_abi_exportable(version = 0)]
     pub trait ALedger {
+        async fn report(&self) -> Report;
         fn get(&self, x: u32) -> u32;
         async fn set(&mut self, x: u32, y: String) -> bool;
         fn plain(&self, x: u32) -> u32;
     }
 }
 pub mod async_b_argtype {
+    #[derive(savefile_derive::Savefile)]
+    pub struct Report {
+        pub a: u32,
+    }
     // BREAKING sibling of r0: argument type of an async method changes
     use async_trait::async_trait;
     use savefile_derive::savefile_abi_exportable;
     #[async_trait]
     #[savefile_abi_exportable(version = 0)]
     pub trait ALedger {
+        async fn report(&self) -> Report;
         async fn get(&self, x: u32) -> u32;
         async fn set(&mut self, x: u32, y: u64) -> bool;
         fn plain(&self, x: u32) -> u32;
     }
 }
 fn async_view_r0(_v: u32) -> Vec<(&'static str, &'static str)> {
-    vec![("get", "async(u32)->u32"), ("set", "async mut(u32,String)->bool"), ("plain", "(u32)->u32")]
+    vec![("report", "async()->Report{a}"), ("get", "async(u32)->u32"), ("set", "async mut(u32,String)->bool"), ("plain", "(u32)->u32")]
 }
 fn async_view_r1(v: u32) -> Vec<(&'static str, &'static str)> {
-    let mut m = async_view_r0(v);
+    let mut m: Vec<(&'static str, &'static str)> = async_view_r0(v).into_iter().map(|m| if m.0 == "report" && v >= 1 { ("report", "async()->Report{a,b}") } else { m }).collect();
     m.push(("more", "async(u64)->u64"));
     m
 }
@@ -800,6 +822,81 @@ fn bounds_view_no_send(_v: u32) -> Vec<(&'static str, &'static str)> {
     bounds_view("Sync", false)
 }
 
+// ------------------------------------------------------------------------------------------------
+// chain "futs": auto-trait bounds on a RETURNED boxed future and a versioned Output type. In return position the
+// direction flips: a later revision that ADDS a bound expects more than a recorded implementation provides
+// (breaking), one that DROPS a bound is fine.
+// ------------------------------------------------------------------------------------------------
+pub mod futs_r0 {
+    use savefile_derive::{savefile_abi_exportable, Savefile};
+    use std::future::Future;
+    use std::pin::Pin;
+    #[derive(Savefile)]
+    pub struct Rep {
+        pub a: u32,
+    }
+    #[savefile_abi_exportable(version = 0)]
+    pub trait FLedger {
+        fn plain(&self) -> Pin<Box<dyn Future<Output = u32>>>;
+        fn rep(&self) -> Pin<Box<dyn Future<Output = Rep>>>;
+    }
+}
+pub mod futs_r1 {
+    // compatible: the Output struct gains a versioned field
+    use savefile_derive::{savefile_abi_exportable, Savefile};
+    use std::future::Future;
+    use std::pin::Pin;
+    #[derive(Savefile)]
+    pub struct Rep {
+        pub a: u32,
+        #[savefile_versions = "1.."]
+        pub b: u64,
+    }
+    #[savefile_abi_exportable(version = 1)]
+    pub trait FLedger {
+        fn plain(&self) -> Pin<Box<dyn Future<Output = u32>>>;
+        fn rep(&self) -> Pin<Box<dyn Future<Output = Rep>>>;
+    }
+}
+pub mod futs_b_send_added {
+    // BREAKING w.r.t. r0: the returned futures are now required to be Send
+    use savefile_derive::{savefile_abi_exportable, Savefile};
+    use std::future::Future;
+    use std::pin::Pin;
+    #[derive(Savefile)]
+    pub struct Rep {
+        pub a: u32,
+    }
+    #[savefile_abi_exportable(version = 0)]
+    pub trait FLedger {
+        fn plain(&self) -> Pin<Box<dyn Future<Output = u32> + Send>>;
+        fn rep(&self) -> Pin<Box<dyn Future<Output = Rep>>>;
+    }
+}
+/// per returned future: which bounds it LACKS (a recorded "lacks X" must still be lacking in the runner)
+fn futs_view(bounds_plain: &'static str, bounds_unpin: &'static str, rep: &'static str) -> Vec<(&'static str, &'static str)> {
+    let _ = bounds_unpin;
+    let mut v = vec![("plain", "()->Future<u32>"), ("rep", rep)];
+    for (m, b) in [("plain", bounds_plain)] {
+        for bound in ["Send", "Sync", "Unpin"] {
+            if !b.contains(bound) {
+                let key: &'static str = Box::leak(format!("{}<lacks {}>", m, bound).into_boxed_str());
+                v.push((key, "lacking"));
+            }
+        }
+    }
+    v
+}
+fn futs_view_r0(_v: u32) -> Vec<(&'static str, &'static str)> {
+    futs_view("", "Unpin", "()->Future<Rep{a}>")
+}
+fn futs_view_r1(v: u32) -> Vec<(&'static str, &'static str)> {
+    futs_view("", "Unpin", if v >= 1 { "()->Future<Rep{a,b}>" } else { "()->Future<Rep{a}>" })
+}
+fn futs_view_b_send(_v: u32) -> Vec<(&'static str, &'static str)> {
+    futs_view("Send", "Unpin+Send", "()->Future<Rep{a}>")
+}
+
 macro_rules! rev {
     ($chain:expr, $name:expr, $latest:expr, $view:expr, $t:ty, $edit:expr) => {
         Rev { chain: $chain, name: $name, latest: $latest, view: $view, verify: |p| verify_compatiblity::<$t>(p), edit: $edit }
@@ -828,6 +925,9 @@ pub fn revisions() -> Vec<Rev> {
         rev!("bounds", "bounds_r1", 1, bounds_view_r1, dyn bounds_r1::BLedger, "compatible: new method"),
         rev!("bounds", "bounds_b_no_sync", 0, bounds_view_no_sync, dyn bounds_b_no_sync::BLedger, "BREAKING: Sync bound dropped"),
         rev!("bounds", "bounds_b_no_send", 0, bounds_view_no_send, dyn bounds_b_no_send::BLedger, "BREAKING: Send bound dropped"),
+        rev!("futs", "futs_r0", 0, futs_view_r0, dyn futs_r0::FLedger, "initial revision: two methods returning boxed futures (plain u32 output / struct output)"),
+        rev!("futs", "futs_r1", 1, futs_view_r1, dyn futs_r1::FLedger, "compatible: the Output struct of a returned future gains a versioned field"),
+        rev!("futs", "futs_b_send_added", 0, futs_view_b_send, dyn futs_b_send_added::FLedger, "BREAKING: returned futures now required to be Send"),
         rev!("objs", "objs_r0", 0, objs_view_r0, dyn objs_r0::OLedger, "initial revision (closures, boxed traits, boxed futures)"),
         rev!("objs", "objs_r1", 1, objs_view_r1, dyn objs_r1::OLedger, "compatible: new method taking &mut dyn FnMut"),
         rev!("objs", "objs_b_closure_arg", 0, objs_view_b_closure, dyn objs_b_closure_arg::OLedger, "BREAKING: argument type of a closure argument changed"),
